@@ -11,7 +11,7 @@ PROPS = {
     'C05': ['SIMMAP', 'KIND', 'LOOPBOUND', 'DRAIN', 'WORKLIST', 'SIZEEQ', 'COW', 'FORWARD', 'ACCRET', 'INSETLABEL', 'COPYALL'],
     'C07': ['DISPATCH', 'ACDUAL', 'FINCHK', 'MERGE', 'PARALLEL', 'COLLECTALL', 'CACHELIFE', 'SIBLING', 'FORWARD', 'QUEUEENDS', 'CLIOPT', 'SCRATCHRESET', 'GENPRE', 'DRAIN', 'FLAGRESET'],
     'C08': ['UNIONCONTRIB', 'PRODUCT', 'WORKLIST', 'DRAIN', 'INIT', 'COLLECTALL', 'ARITY', 'TUPLEPOS', 'LOADROLE', 'FORWARD', 'USEMOVE', 'UNIONTRANSL', 'ACCRET', 'SCRATCHRESET', 'NULLPARAM'],
-    'C09': ['DISPATCH', 'ACDUAL', 'FINCHK', 'MEMO', 'HASHEQ', 'ORDTOTAL', 'FORWARD', 'ADDRKEY', 'QUEUEENDS', 'CLIOPT', 'FLAGRESET', 'DRAIN'],
+    'C09': ['DISPATCH', 'ACDUAL', 'FINCHK', 'MEMO', 'HASHEQ', 'ORDTOTAL', 'FORWARD', 'ADDRKEY', 'QUEUEENDS', 'CLIOPT', 'FLAGRESET', 'DRAIN', 'ITERINVAL'],
     'C10': ['UNIONCONTRIB', 'PRODUCT', 'PAIRFIELD', 'FINCHK', 'WORKLIST', 'DRAIN', 'PARAMPATH', 'COW', 'FORWARD', 'NFAOPS', 'UNIONTRANSL', 'ACCRET', 'SCRATCHRESET', 'COLLECTALL', 'NULLPARAM'],
     'C11': ['COW', 'CLEARALL', 'HASHCONS', 'CACHELIFE', 'ALPHASRC'],
     'C13': ['TEXT', 'LOADROLE', 'PARAMPATH', 'PAIRFIELD', 'FORWARD', 'SCRATCHRESET', 'NOTHROW', 'COLLECTALL', 'DRAIN'],
@@ -21,7 +21,7 @@ PROPS = {
     'C17': ['CANON', 'TEXT'],
     'C18': ['REFCNT', 'CANON'],
     'C19': ['KIND', 'SIMMAP', 'DISPATCH', 'SIBLING', 'ACDUAL', 'ORDTOTAL', 'FRAMERESET', 'HASHEQ', 'MEMO', 'KEYFIELDS', 'ADDRKEY', 'QUEUEENDS', 'CLIOPT', 'FLAGRESET', 'INSETLABEL', 'PREPASS'],
-    'C20': ['INIT', 'FALLOFF', 'PAIRFIELD', 'COPYALL', 'FRAMERESET', 'CACHELIFE', 'LOOPBOUND', 'ERASER', 'STALESIZE', 'ITER', 'NONEMPTY', 'USEMOVE', 'INSETLABEL', 'GENPRE', 'REFCNT', 'NULLPARAM'],
+    'C20': ['INIT', 'FALLOFF', 'PAIRFIELD', 'COPYALL', 'FRAMERESET', 'CACHELIFE', 'LOOPBOUND', 'ERASER', 'STALESIZE', 'ITER', 'NONEMPTY', 'USEMOVE', 'INSETLABEL', 'GENPRE', 'REFCNT', 'NULLPARAM', 'ITERINVAL'],
 }
 
 # (property, rule) -> regex on the repo-relative file: only sites in matching files are attributed to that
@@ -59,6 +59,7 @@ FILTER = {
     ('C08', 'USEMOVE'): r'bdd_|symbolic', ('C15', 'COUNTGUARD'): r'explicit_tree_candidate', ('C03', 'COUNTGUARD'): r'explicit_tree_useless',
     ('C01', 'QUEUEENDS'): r'explicit_tree|antichain', ('C07', 'QUEUEENDS'): r'antichain|tree_incl|bdd_', ('C09', 'QUEUEENDS'): r'explicit_finite|congr_product|antichain',
     ('C12', 'COW'): r'explicit_tree',
+    ('C09', 'ITERINVAL'): r'explicit_finite|normal_form|congr|antichain',
     ('C02', 'NULLPARAM'): r'explicit_tree', ('C08', 'NULLPARAM'): r'bdd_', ('C10', 'NULLPARAM'): r'explicit_finite',
     ('C03', 'KEPTRULES'): r'explicit_tree_useless', ('C15', 'KEPTRULES'): r'explicit_tree_candidate',
     ('C01', 'FLAGRESET'): r'explicit_tree|down_tree_', ('C07', 'FLAGRESET'): r'down_tree_|up_tree_|tree_incl|bdd_', ('C09', 'FLAGRESET'): r'explicit_finite|comparators',
